@@ -3,11 +3,37 @@
 property text and its scratch worktree — nothing from /verif)."""
 import json, sys
 pid = sys.argv[1]
+rnd = sys.argv[2] if len(sys.argv) > 2 else ''
+AVOID = {
+ 'C01': ['result channels taken from a sync.Pool', 'read loop reusing the frame buffer'],
+ 'C02': ['a typedef-resolution cache keyed by unqualified name', 'WriteBinaryWithContext skipping empty values'],
+ 'C03': ['client generator returning early for void methods before the exception checks', 'framed transport subtracting bytes requested instead of bytes read'],
+ 'C04': ['off-by-one (>=) in the readPairs length guards', 'a scratch buffer shared through the marshaler singleton'],
+ 'C05': ['int32 overflow in the readPairs guards (i+size > end)', 'write mutex leaked on error returns of the unknown-method reply'],
+ 'C06': ['dispatch turned back into a blocking send', 'read lock released only on one arm of the select in dispatch'],
+ 'C07': ['subscriber factory sharing its channels between transports', 'STOMP loop returning on an empty body'],
+ 'C08': ['Go subscriber using snakeToCamel for the scope name', 'Java DELIMITER computed in a package-level variable'],
+ 'C09': ['readPairs rejecting an empty last header value', 'Clone renumbering the original context instead of the clone'],
+ 'C10': ['enum numbering using > instead of >=', 'anchoring the prefix-variable identifier regexp'],
+ 'C11': ['skipping the typedef cycle search for container typedefs', 'testing the New/Args/Result suffix rule on the raw IDL spelling'],
+ 'C12': ['WriteByte with its own off-by-one limit check', 'trapError calling the locking SendError'],
+ 'C13': ['an IsOpen() guard (lifecycle lock) at the top of Request/Oneway', 'Oneway calling send inline instead of in a goroutine'],
+ 'C14': ['trapError calling the locking SendError', 'hoisting the frame-size buffer out of the HTTP handler closure'],
+ 'C15': ['building the frame decoder once in the constructor', 'keeping the reopen attempt counter in the monitor runner'],
+ 'C16': ['allocating the Results slice once per method', 'SetError ignoring nil'],
+ 'C17': ['load/check/store instead of atomic.AddUint64', 'Clone sharing the ephemeral-properties map'],
+ 'C18': ['resolving the new type through the old program in checkType', 'folding the added-required-field error into an else-if'],
+ 'C19': ['ReferencedIncludes returning in map order', 'relative paths plus sorting the HTML index by file path'],
+ 'C20': ['removing conn.Flush between Drain and Barrier', 'returning before wg.Wait when the queue is empty'],
+}
 for l in open('/verif/properties.jsonl'):
     p = json.loads(l)
     if p['id'] == pid: break
-wt = f'/tmp/wt/{pid}'
-out = f'/tmp/seedout/{pid}'
+wt = f'/tmp/wt/{pid}{rnd}'
+out = f'/tmp/seedout/{pid}{rnd}'
+avoid = ""
+if rnd:
+    avoid = "  Other people already produced the following ideas for this property - do NOT repeat them or close variants; find different mechanisms, functions or files: " + "; ".join(AVOID.get(pid, [])) + "."
 print(f"""You are helping to evaluate a verification tool for the open-source project Workiva/frugal (a Thrift-superset IDL compiler written in Go with Go/Java/Dart/Python generators, plus a Go runtime library under lib/go). Your job is to act as a "bug seeder": produce realistic source changes that BREAK one stated semantic property of the code base while still compiling and still passing the project's existing test suite.
 
 You have your own scratch git worktree of the repository at: {wt}
@@ -25,6 +51,7 @@ WHAT TO PRODUCE: TWO different, independent changes (call them "a" and "b") to t
   3. is REALISTIC - the kind of mistake or "simplification"/refactor a developer could plausibly commit (an off-by-one in a guard, a lock released too early or dropped, a cleanup moved after an early return, a wrong variable of the right type, a swapped argument, a missing case, a changed constant, a removed check, state shared that should be per-call ...), small (a few lines),
   4. needs something SPECIFIC to manifest: a particular interleaving, a crash/fault at a particular point, a multi-step sequence of operations, an unusual input, or two cooperating sites that each look fine alone. Do NOT produce changes that ordinary use would expose at once.
   The two changes should break the property in different ways / at different places.
+{avoid}
 
 For EACH change also write a demonstration: a Go test file (or small program) that FAILS with the change applied and PASSES on the unchanged tree. Put demonstration tests next to the code they test (e.g. lib/go/zz_seed_{pid.lower()}a_test.go, package frugal, or under compiler/ for compiler properties) - they may use internal identifiers. Keep them deterministic (use timeouts of <= 2s to detect hangs/deadlocks) and fast.
 
